@@ -276,10 +276,19 @@ pub fn child_main(args: &[String]) -> i32 {
         max_levels.push(prev.to_string());
         probe_global(&mut st, &specs[0], &mut rng, 0, &mut observe);
         for (i, s) in specs.iter().enumerate().skip(1) {
-            let mut cfg = build_config(s, &sink, "", Some(&mut rng)).expect("valid config");
+            // now and then the configuration carries an (unattached) appender whose destructor panics: the
+            // set_config call that replaces it unwinds
+            let mut s_built = s.clone();
+            if rng.chance(1, 5) {
+                s_built.appenders.push(crate::routing::BOMB.to_owned());
+            }
+            let mut cfg = build_config(&s_built, &sink, "", Some(&mut rng)).expect("valid config");
             // (the specs of this history were already adjusted: see below)
             cfg.root_mut().set_level(s.root_level);
-            handle.set_config(cfg);
+            let r = std::panic::catch_unwind(std::panic::AssertUnwindSafe(|| handle.set_config(cfg)));
+            if r.is_err() {
+                st.count("set_config_calls_that_unwound_from_an_appender_destructor");
+            }
             let m = s.max_level();
             if m > prev {
                 st.count("max_went_up");
